@@ -298,8 +298,8 @@ func init() {
 		Rule: "all statement trees with <= N nodes over 25 constructs (trace print, if / if-else with true, false and data-driven conditions, while with a counting and a false condition, three-clause for, for-in over array / object / string with one and two variables and over the three empty iterables, two-statement block, break, continue, return, next, exit), " +
 			"each placed in a BEGIN rule, in the first of two pattern rules over [1,2], and in a function called from such a rule; trees that use break/continue outside a loop or return outside a function are left out (they are syntax errors, C11); oracle: the model's exact output trace (DESIGN.md 3.11-3.13); " +
 			"a state is a (enclosing construct > construct) pair that was executed; non-trivial = such pairs; plus fixed programs for 12-key objects and unbraced dangling else",
-		Plan: func(t fw.Tier) int { return c7NKinds * 3 },
-		Bound: func(t fw.Tier) string { return fmt.Sprintf("all valid trees with <= %d nodes x 3 placements", size(t)) },
+		Plan:        func(t fw.Tier) int { return c7NKinds * 3 },
+		Bound:       func(t fw.Tier) string { return fmt.Sprintf("all valid trees with <= %d nodes x 3 placements", size(t)) },
 		Assumptions: []string{"reference interpreter mc/refsem (statements, calls, rule schedule)", "object key order probed from the implementation once per key sequence (3.11)"},
 		Run: func(c *fw.Ctx, u int) {
 			root, ctx := u/3, u%3
